@@ -557,6 +557,21 @@ fn cmd_wrap(a: &Args) -> i32 {
             }
         }
     }
+    if mode == Mode::Token && val == "tp" && shard % nshards == 0 && only_k.is_none() && replay_exec.is_none() {
+        // directed: a writer keeps a replacement across a whole cycle of the reader's counter
+        use arc_swap::verif::Site;
+        for k in 1..=4u64 {
+            for park in [Site::HELP_REPLACEMENT, Site::HELP_SPACE_LOAD, Site::HELP_HANDOVER_STORE, Site::HELP_CTRL_CAS] {
+                n += 1;
+                let o = wl_wrap::run_full_cycle::<Option<Tp<1>>, FillFastSlots>(&p, shard * 10_000_000 + 5_000_000 + n, k, park as u16);
+                runner::with(|r| {
+                    r.execs += 1;
+                    r.ops += o.ops as u64;
+                });
+                hashes.insert(util::mix(o.trace_hash, 0xFC00 | k << 4 | park as u64));
+            }
+        }
+    }
     runner::count("distinct_nontrivial", hashes.len() as u64);
     runner::count("wrap.cells_distinct", runner::with(|r| r.distinct.len() as u64));
     runner::count("wrap.wraps_inside_nested_replacement_load", sched::WRAPS_IN_PAYALL.load(std::sync::atomic::Ordering::Relaxed));
